@@ -12,3 +12,6 @@ import RexModel.Props.C08
 #print axioms Rex.C08.C08_ring_stale_not_read
 #print axioms Rex.C08.C08_default_until_full
 #print axioms Rex.C08.C08_replay_read_live
+#print axioms Rex.C08.C08_computed_size_bounds_live
+#print axioms Rex.C08.C08_sized_ring_reads_scheduled
+#print axioms Rex.C08.C08_sized_ring_keeps_default
